@@ -27,16 +27,27 @@ func (pool FarmPool) ExpiredHeight() (int64, error) {
 	return pool.StartHeight + targetInteval, nil
 }
 
+// CaclRewards returns the rewards the farmer can collect now and the reward debt to record
+// after his stake has changed by deltaAmt.
+//
+// Every rounding goes in favour of the pool, so the farmers of a pool can never collect more
+// than was released to the reward collector: what has been settled for the stake held so far is
+// the floor of its accrued rewards, and the shares added (removed) now enter (leave) at the
+// current reward per share rounded up. The fraction not paid out now stays owed and is paid as
+// soon as it adds up to a whole unit; each call rounds by less than one unit.
 func (pool FarmPool) CaclRewards(farmInfo FarmInfo, deltaAmt sdkmath.Int) (rewards, rewardDebt sdk.Coins) {
 	for _, r := range pool.Rules {
+		// settled is the amount up to which the current stake has been paid
+		settled := farmInfo.RewardDebt.AmountOf(r.Reward)
 		if farmInfo.Locked.GT(sdkmath.ZeroInt()) {
 			pendingRewardTotal := r.RewardPerShare.MulInt(farmInfo.Locked).TruncateInt()
-			pendingReward := pendingRewardTotal.Sub(farmInfo.RewardDebt.AmountOf(r.Reward))
-			rewards = rewards.Add(sdk.NewCoin(r.Reward, pendingReward))
+			if pendingRewardTotal.GT(settled) {
+				rewards = rewards.Add(sdk.NewCoin(r.Reward, pendingRewardTotal.Sub(settled)))
+				settled = pendingRewardTotal
+			}
 		}
 
-		locked := farmInfo.Locked.Add(deltaAmt)
-		debt := sdk.NewCoin(r.Reward, r.RewardPerShare.MulInt(locked).TruncateInt())
+		debt := sdk.NewCoin(r.Reward, settled.Add(r.RewardPerShare.MulInt(deltaAmt).Ceil().TruncateInt()))
 		rewardDebt = rewardDebt.Add(debt)
 	}
 	return rewards, rewardDebt
